@@ -3,7 +3,9 @@
 (* explored for every (kind, feature set, crash point) triple.  Each initial state is one implementation test; *)
 (* the terminal state carries the expected hook-event sequence and outcome.                                    *)
 EXTENDS CalcPipelineDef
-VARIABLES test,      \* [kind, feats, crash: [stage, when \in {"after","during","never"}, hit]]  (constant along a behaviour)
+VARIABLES test,      \* [kind, feats, crash: [stage, when \in {"after","during","never"}, hit, exc]]  (constant along a behaviour)
+                     \* exc: what an injected crash raises - "injected" (a foreign exception) or "lfnc" (LoadflowNotConverged,
+                     \* which some frames treat specially); the REQUIRED behaviour does not depend on it
           stack,     \* Seq([kind, pc, added])
           aux,       \* auxiliary rows currently in the element tables
           tmp,       \* set of temporarily changed inputs (outaged element of a contingency case)
@@ -13,12 +15,12 @@ VARIABLES test,      \* [kind, feats, crash: [stage, when \in {"after","during",
 vars == <<test, stack, aux, tmp, hits, events, outcome>>
 
 Crashes(k) ==
-  {[stage |-> "-", when |-> "never", hit |-> 0]}
+  {[stage |-> "-", when |-> "never", hit |-> 0, exc |-> "none"]}
   \cup (IF k = "contingency" THEN {}     \* the outer contingency loop has no hook points of its own
-        ELSE {[stage |-> Stages(k)[n], when |-> "after", hit |-> 1] : n \in 1..Len(Stages(k))})
-  \cup {[stage |-> NaturalAt(k, nat), when |-> "during", hit |-> 1] : nat \in {m \in {"no_slack", "not_converged"} : NaturalAt(k, m) # "-"}}
+        ELSE {[stage |-> Stages(k)[n], when |-> "after", hit |-> 1, exc |-> x] : n \in 1..Len(Stages(k)), x \in {"injected", "lfnc"}})
+  \cup {[stage |-> NaturalAt(k, nat), when |-> "during", hit |-> 1, exc |-> "none"] : nat \in {m \in {"no_slack", "not_converged"} : NaturalAt(k, m) # "-"}}
   \cup (IF k = "contingency"
-        THEN {[stage |-> Stages("runpp")[n], when |-> "after", hit |-> h] : n \in 1..Len(Stages("runpp")), h \in 1..3}
+        THEN {[stage |-> Stages("runpp")[n], when |-> "after", hit |-> h, exc |-> x] : n \in 1..Len(Stages("runpp")), h \in 1..3, x \in {"injected", "lfnc"}}
         ELSE {})
 Tests == UNION {{[kind |-> k, feats |-> fs, crash |-> c] : fs \in SUBSET Features, c \in Crashes(k)} : k \in Kinds}
 
